@@ -41,6 +41,21 @@ Theorem C07_refloop_no_negative : forall p ins, env_ok ins = true ->
 Proof. exact refloop_no_negative. Qed.
 Print Assumptions C07_refloop_no_negative.
 
+(* Clauses of C07 that are NOT theorems here (full statements; they are evaluated by the property
+   oracle of harness/cmd/c07 on the implementation over the checker-owned storage, see props/C07.json):
+   - session_emits_env_ok: every event sequence that version.incref/releaseNB, session.setVersion,
+     commit (also failing), recover and newSession send to the loop satisfies env_ok.  Checked on
+     random histories of the real version layer (its loop replaced by a recorder), not proved.
+   - sweep_exact: after Open (recover + checkAndCleanFiles) and once background work settled, the
+     storage holds exactly the tables of the current version, the live journal, the manifest CURRENT
+     names (and CURRENT); a missing live table is reported as corruption.
+   - no_residue: a failed flush / compaction (also when the DB is closed meanwhile), a discarded
+     transaction and Recover leave no table file that the current version does not hold.
+   - space_reclaimed: after deleting every key and a full-range compaction with no snapshot live, all
+     levels are empty and no table bytes remain.
+   - deferred removal: a table file is removed only after the last open reader of it is closed
+     (through the file cache, property C17): no read is served from a removed file. *)
+
 (* ---------- non-vacuity ---------- *)
 
 (* a history with a failed commit (abandoned id 2), a trivial move (table 5 in both lists), a reader
